@@ -170,6 +170,29 @@ FEATURES = [
     (15, None, 'last-modified on GET inventories',
      ('GET', RP1 + '/inventories', None),
      lambda r: 'last-modified' in r.headers),
+    # ... on every route that returns a document, also when the collection
+    # it reports is empty (provider 3 has nothing)
+] + [
+    (15, None, 'last-modified and cache-control on GET %s' % path,
+     ('GET', path, None),
+     lambda r: r.status == 200 and 'last-modified' in r.headers and
+     r.headers.get('cache-control') == 'no-cache')
+    for path in (
+        '/resource_providers/' + U(3) + '/inventories',
+        '/resource_providers/' + U(3) + '/traits',
+        '/resource_providers/' + U(3) + '/aggregates',
+        '/resource_providers/' + U(3) + '/usages',
+        '/resource_providers/' + U(3) + '/allocations',
+        '/resource_providers/' + U(1) + '/allocations',
+        '/resource_providers/' + U(1) + '/inventories/VCPU',
+        '/allocations/' + CONS(77), '/allocations/' + CONS(1),
+        '/resource_providers?name=nope', '/resource_providers',
+        '/traits?name=in:CUSTOM_NOPE', '/traits', '/resource_classes',
+        '/resource_classes/VCPU', '/usages?project_id=nobody',
+        '/usages?project_id=proj',
+        '/allocation_candidates?resources=VCPU:9999',
+        '/allocation_candidates?resources=VCPU:1')
+] + [
     (16, None, 'limit on candidates', cand('resources=VCPU:1&limit=1'),
      st(200)),
     (17, None, 'required on candidates',
@@ -511,6 +534,37 @@ def fam_parameter_names():
                       plib._QS_KEY_PATTERN_1_33.pattern, (1, 33)))
         prefixes = ('resources', 'required', 'member_of', 'in_tree')
         with world(ctx) as w:
+            # the consumer_type filter of GET /usages (1.38): a consumer type
+            # name, 'all' or 'unknown'
+            from placement.schemas import usage as us
+            pat = us.GET_USAGES_SCHEMA_V1_38['properties']['consumer_type'][
+                'pattern']
+            name = z3.Plus(z3.Union(z3.Range('A', 'Z'), z3.Range('0', '9'),
+                                    z3.Re('_')))
+            doc = z3.Union(name, z3.Re('all'), z3.Re('unknown'))
+            ctx.data['obligations'] = ctx.data.get('obligations', 0) + 1
+            r, wit = rex.included(rex.search_language(pat), doc, max_len=40)
+            ctx.nq += 1
+            if r == 'unsat':
+                ctx.data['discharged'] = ctx.data.get('discharged', 0) + 1
+            elif r == 'unknown':
+                ctx.data.setdefault('violations', []).append(dict(
+                    clause='parameter-value-language', kind='unknown',
+                    values=None, desc='regex inclusion undecided',
+                    sig='consumer_type'))
+            else:
+                val = rex.unescape(wit)
+                resp = app.call(
+                    'GET', '/usages?project_id=proj&consumer_type=' +
+                    urllib.parse.quote(val, safe=''), version='1.38')
+                if resp.status == 200:
+                    runner.violation(
+                        ctx, 'parameter-value-language',
+                        'GET /usages accepts consumer_type=%r (pattern %r), '
+                        'which is neither a consumer type name nor all / '
+                        'unknown' % (val, pat), sig='consumer_type')
+                else:
+                    ctx.data['discharged'] = ctx.data.get('discharged', 0) + 1
             for what, pat, m in cases:
                 wide = m >= (1, 33)
                 doc = z3.Union(*[spec(p_, wide) for p_ in prefixes])
